@@ -7,6 +7,8 @@ import Props.C13
 #print axioms C07.undersized_chroma_rejected
 #print axioms C07.uncovered_plane_rejected
 #print axioms C07.accepted_area_fits
+#print axioms C07.decode_indices_fit
+#print axioms C07.encode_indices_fit
 #print axioms C07.area_overflow_rejected
 #print axioms C18.exp2_total
 #print axioms C18.curve_total
